@@ -7,6 +7,8 @@ import (
 	"os"
 	"path/filepath"
 	"regexp"
+	"runtime/debug"
+	"runtime/pprof"
 	"sort"
 	"strconv"
 	"strings"
@@ -15,21 +17,34 @@ import (
 )
 
 func main() {
+	if pf := os.Getenv("GOSYM_CPUPROFILE"); pf != "" {
+		f, err := os.Create(pf)
+		if err == nil {
+			pprof.StartCPUProfile(f)
+		}
+	}
+	code := realMain()
+	pprof.StopCPUProfile()
+	os.Exit(code)
+}
+
+func realMain() int {
+	// the interpreter allocates many short-lived boxes; memory is plentiful, GC time is not
+	debug.SetGCPercent(800)
 	if len(os.Args) < 2 {
 		fmt.Fprintln(os.Stderr, "usage: gosym check <property> [flags] | gosym replay <file> | gosym selftest")
-		os.Exit(2)
+		return 2
 	}
 	switch os.Args[1] {
 	case "check":
-		os.Exit(cmdCheck(os.Args[2:]))
+		return cmdCheck(os.Args[2:])
 	case "replay":
-		os.Exit(cmdReplay(os.Args[2:]))
+		return cmdReplay(os.Args[2:])
 	case "selftest":
-		os.Exit(cmdSelftest(os.Args[2:]))
-	default:
-		fmt.Fprintln(os.Stderr, "unknown command", os.Args[1])
-		os.Exit(2)
+		return cmdSelftest(os.Args[2:])
 	}
+	fmt.Fprintln(os.Stderr, "unknown command", os.Args[1])
+	return 2
 }
 
 type harnessFile struct {
@@ -151,16 +166,16 @@ type groupRun struct {
 }
 
 type CheckReport struct {
-	Prop      string
-	Tier      string
-	Seed      int64
-	Groups    []*groupRun
-	WallS     float64
-	Confirmed []*ConfirmedViolation
-	Unconf    []*ConfirmedViolation
-	Known     []*ConfirmedViolation
-	Problems  []string
-	Expected  int
+	Prop          string
+	Tier          string
+	Seed          int64
+	Groups        []*groupRun
+	WallS         float64
+	Confirmed     []*ConfirmedViolation
+	Unconf        []*ConfirmedViolation
+	Known         []*ConfirmedViolation
+	Problems      []string
+	Expected      int
 	SelfValidated int
 }
 
@@ -200,7 +215,6 @@ func runCheck(o *checkOpts) *CheckReport {
 		onlyRe = regexp.MustCompile(o.only)
 	}
 	sem := make(chan struct{}, o.workers)
-	var semMu sync.Mutex
 	var wg sync.WaitGroup
 	var mu sync.Mutex
 	for _, dir := range sortedKeys(byPkg) {
@@ -238,7 +252,7 @@ func runCheck(o *checkOpts) *CheckReport {
 					MaxDepth:      optInt(hd.Opts, o.tier, "depth", 200),
 					MaxAlloc:      optInt(hd.Opts, o.tier, "alloc", 1<<20),
 					PermuteMaps:   optInt(hd.Opts, o.tier, "permute", 0),
-					Workers:       optInt(hd.Opts, o.tier, "workers", 4),
+					Workers:       optInt(hd.Opts, o.tier, "workers", 8),
 					BranchTO:      time.Duration(optInt(hd.Opts, o.tier, "branchto", 10)) * time.Second,
 					AssertTO:      time.Duration(optInt(hd.Opts, o.tier, "assertto", 60)) * time.Second,
 					MaxWall:       time.Duration(optInt(hd.Opts, o.tier, "wall", map[string]int{"quick": 240, "thorough": 1500}[o.tier])) * time.Second,
@@ -251,18 +265,7 @@ func runCheck(o *checkOpts) *CheckReport {
 				hw.Add(1)
 				go func() {
 					defer hw.Done()
-					// take worker slots
-					semMu.Lock()
-					for i := 0; i < cfg.Workers; i++ {
-						sem <- struct{}{}
-					}
-					semMu.Unlock()
-					defer func() {
-						for i := 0; i < cfg.Workers; i++ {
-							<-sem
-						}
-					}()
-					ex := &Explorer{P: P, cfg: cfg, res: hr}
+					ex := &Explorer{P: P, cfg: cfg, res: hr, sem: sem}
 					ex.Run()
 					if o.verbose {
 						fmt.Fprintf(os.Stderr, "[%s] paths=%d steps=%d ends=%v viol=%d incomplete=%d wall=%.1fs\n", name, hr.Paths, hr.Steps, hr.Ends, len(hr.Violations), len(hr.Incomplete), hr.WallS)
@@ -413,12 +416,12 @@ func (rep *CheckReport) printSummary() {
 
 func (rep *CheckReport) writeEvidence(o *checkOpts, inconclusive []string) error {
 	type sample struct {
-		Harness     string        `json:"harness"`
-		Obligations []*Obligation `json:"obligations"`
-		Paths       int           `json:"paths"`
+		Harness     string         `json:"harness"`
+		Obligations []*Obligation  `json:"obligations"`
+		Paths       int            `json:"paths"`
 		Ends        map[string]int `json:"path_ends"`
 		Reach       map[string]int `json:"reach_witnesses,omitempty"`
-		SamplePaths []string      `json:"sample_paths,omitempty"`
+		SamplePaths []string       `json:"sample_paths,omitempty"`
 		ByDesign    map[string]int `json:"documented_differences_hit,omitempty"`
 		Bounds      map[string]any `json:"bounds"`
 	}
@@ -484,17 +487,17 @@ func (rep *CheckReport) writeEvidence(o *checkOpts, inconclusive []string) error
 		level = strings.TrimSpace(string(lv))
 	}
 	cov := map[string]any{
-		"states":                        states,
-		"transitions":                   transitions,
-		"traces_validated_against_impl": validated,
-		"samples":                       samples,
-		"obligations":                   obligations,
-		"discharged":                    discharged,
-		"queries":                       queries,
-		"solver_s":                      round2(solverS),
-		"functions_encoded":             funcs,
+		"states":                         states,
+		"transitions":                    transitions,
+		"traces_validated_against_impl":  validated,
+		"samples":                        samples,
+		"obligations":                    obligations,
+		"discharged":                     discharged,
+		"queries":                        queries,
+		"solver_s":                       round2(solverS),
+		"functions_encoded":              funcs,
 		"functions_encoded_outside_repo": otherFuncs,
-		"inconclusive":                  inconclusive,
+		"inconclusive":                   inconclusive,
 		"explanation": "states = feasible paths explored by bounded symbolic execution of the go/ssa of the real functions; transitions = SSA instructions executed symbolically; " +
 			"obligations = assertion instances reached, discharged = proved unsat (or trivially true after constant folding) under the path condition; " +
 			"traces_validated_against_impl = counterexample tapes replayed against the native build",
